@@ -46,6 +46,7 @@ class PropertySpec:
     explanation: str = ''
     not_decided: list = field(default_factory=list)
     witness_builders: dict = field(default_factory=dict)   # obligation-name prefix -> callable(run) -> witness|None
+    registry: str = 'default'                          # 'typestate': the functions are verified against the typestate contracts (skeleton mode)
 
 
 @dataclass
@@ -167,6 +168,9 @@ def run_property(spec: PropertySpec, tier: str, seed: int, reg: Registry) -> Run
             run.verdicts.append(smt.discharge(ob, run.timeout_ms))
     # 2. functions in full mode, one worker per (function, contract case); each worker explores, discharges and
     #    cross-checks its case against CPython, and returns plain data
+    if spec.registry == 'typestate':
+        reg = _typestate_registry()
+        run.reg = reg
     tasks = []
     for q in spec.functions:
         con = reg.get(q)
@@ -174,9 +178,9 @@ def run_property(spec: PropertySpec, tier: str, seed: int, reg: Registry) -> Run
             run.errors.append(f'no contract registered for {q}')
             continue
         for k in range(len(con.cases)):
-            tasks.append((q, k, tier, seed, run.timeout_ms))
+            tasks.append((q, k, tier, seed, run.timeout_ms, spec.registry))
     results = _pool_map(_case_worker, tasks)
-    for (q, k, *_), res in zip(tasks, results):
+    for (q, k, *_rest), res in zip(tasks, results):
         if 'crash' in res:
             run.errors.append(f'engine crash on {q} case {k}: {res["crash"]}')
             continue
@@ -185,6 +189,7 @@ def run_property(spec: PropertySpec, tier: str, seed: int, reg: Registry) -> Run
             rep = verify.FunctionReport(q, res['file'], res['sha256'], res['lines'])
             run.reports[q] = rep
         rep.verdicts.extend(res['verdicts'])
+        rep.mode = res.get('mode', 'P')
         rep.paths += res['paths']
         rep.undecided.extend(res['undecided'])
         rep.dropped.add(res['dropped'])
@@ -242,11 +247,19 @@ def _pool_map(fn, tasks):
         return pool.map(fn, tasks, chunksize=1)
 
 
+def _typestate_registry():
+    from contracts import c_typestate
+    reg = Registry()
+    for c in c_typestate.register(reg).values():
+        reg.add(c)
+    return reg
+
+
 def _case_worker(task):
-    q, k, tier, seed, timeout_ms = task
+    q, k, tier, seed, timeout_ms, regname = task
     try:
         from contracts import build_registry
-        reg = build_registry()
+        reg = _typestate_registry() if regname == 'typestate' else build_registry()
         con = reg.get(q)
         ncases = len(con.cases)
         con.cases = [con.cases[k]]
@@ -262,7 +275,7 @@ def _case_worker(task):
         for s_ in rep.summaries:
             if s_.ctx is not None:
                 used |= s_.ctx.used_lemmas
-        return {'file': rep.file, 'sha256': rep.sha256, 'lines': rep.lines, 'verdicts': rep.verdicts, 'paths': rep.paths,
+        return {'file': rep.file, 'sha256': rep.sha256, 'lines': rep.lines, 'verdicts': rep.verdicts, 'paths': rep.paths, 'mode': ('S (skeleton / typestate)' if con.skeleton else 'P'),
                 'undecided': rep.undecided, 'dropped': rep.dropped, 'interpreted': rep.interpreted, 'seconds': rep.seconds,
                 'cross': cc, 'used_lemmas': used}
     except Exception as e:
@@ -327,7 +340,7 @@ def replay_refutation(run: Run, name: str, vs: list):
     fn = name.split('::')[0]
     con = run.reg.get(fn)
     info = {'reproduced': False, 'how': 'none', 'solver_models': [_jsonable(v.model) for v in vs if v.status == 'refuted' and v.model][:3]}
-    if any(v.backend == 'frame' for v in vs):
+    if any(v.backend == 'frame' for v in vs) or (con is not None and getattr(con, 'skeleton', False)):
         # a frame obligation has no counter-model; the property's native witness builder (bounded run) is consulted
         bf = run.bounded.get('failures', [])
         if bf:
@@ -493,7 +506,7 @@ def finish(run: Run, evidence_path: str, checker_cmd: str) -> int:
     for v in run.verdicts:
         if v.expect == 'valid' and len(samples) < 6 and not any(s['obligation'] == v.name for s in samples):
             samples.append({'obligation': v.name, 'path': v.path, 'verdict': v.status, 'backend': v.backend,
-                            'smt_chars': v.smt_size, 'seconds': round(v.seconds, 4)})
+                            'smt_assertions': v.smt_size, 'seconds': round(v.seconds, 4)})
     canaries = [{'canary': n, 'refuted_with': _jsonable(next((v.model for v in vs if v.status == 'discharged' and v.model), None))}
                 for n, (st, vs) in agg.items() if '::canary.' in n and st == 'discharged']
     if canaries:
